@@ -87,6 +87,8 @@ class Module:
                 self.imports.update(self._import_entries(node, self.name))
             elif isinstance(node, ast.Assign) and len(node.targets) == 1 and isinstance(node.targets[0], ast.Name):
                 self.globals[node.targets[0].id] = node.value
+            elif isinstance(node, ast.AnnAssign) and isinstance(node.target, ast.Name) and node.value is not None:
+                self.globals[node.target.id] = node.value
         self._index_body(self.tree.body, prefix=self.name, cls=None, parent=None)
 
     def _index_body(self, body, prefix, cls, parent):
